@@ -339,7 +339,8 @@ class ToExec:
         if part == "cont":
             data = b"HTTP/1.1 100 Continue\r\n\r\n"
             pc.feed(data)
-            rq.t_feed = self.loop.time()
+            # an interim response carries no payload: it does not start the sock_read clock
+            # (the timer is armed and dropped again); the send phase is not covered by sock_read
             rq.fed_parts.append(part)
             self.rec("deliver", who=name, part=part)
             return True
@@ -1110,11 +1111,12 @@ def free_models(ctx: Ctx) -> List[tuple]:
         ("total + sock_read + big chunk (read pause/resume)", dict(TOtotal=6, TOread=3, BigChunk=True), no_su, True),
         ("total>=thr + sock_read + blocked writer + early response",
          dict(TOtotal=5, TOread=3, Body="block", AllowPause=True, EarlyResponse=True), AS_CODED_INV, False),
-        ("connect, two bystanders L3", dict(TOconnect=3, Limit=3, Bys=["b", "c"], MaxPartial=0), AS_CODED_INV, False),
         ("sock_read + expect100", dict(TOread=3, Body="small", Expect100=True), AS_CODED_INV, False),
     ]
     if not ctx.quick:
         ms_ += [
+            ("connect, two bystanders L3", dict(TOconnect=3, Limit=3, Bys=["b", "c"], MaxPartial=0), AS_CODED_INV, False),
+            ("total, two bystanders L2", dict(TOtotal=3, Limit=2, Bys=["b", "c"], MaxPartial=0), AS_CODED_INV, False),
             ("connect>thr L1 offset 0", dict(TOconnect=5, Offset=0), AS_CODED_INV, False),
             ("sock_connect L2", dict(TOsockc=3, Limit=2), AS_CODED_INV, False),
             ("total + sock_read, 2 partial deliveries, L2", dict(TOtotal=7, TOread=3, MaxPartial=2, Limit=2, Horizon=16),
@@ -1326,7 +1328,11 @@ def selftest(ctx: Ctx) -> int:
             ("ShieldDns=FALSE (cancel reaches the shared lookup)", dict(TOtotal=3, Limit=2, ShieldDns=False), {"BystanderUnharmed"}),
             ("CancelWriter=FALSE", dict(TOtotal=3, Body="block", AllowPause=True, CancelWriter=False), {"NoResidue"}),
             ("RearmOnResume=FALSE", dict(TOread=3, BigChunk=True, RearmOnResume=False), {"Bounded"}),
-            ("TimerCoversBody=FALSE", dict(TOtotal=3, TimerCoversBody=False), {"Bounded"})]:
+            ("TimerCoversBody=FALSE", dict(TOtotal=3, TimerCoversBody=False), {"Bounded"}),
+            ("JoinerOwnFuture=FALSE (joiners of a DNS lookup share one future)",
+             dict(TOconnect=3, Limit=3, Bys=["b", "c"], MaxPartial=0, JoinerOwnFuture=False), {"BystanderUnharmed"}),
+            ("ArmOnEarlyData=FALSE (early response bytes do not arm sock_read)",
+             dict(TOread=3, Body="block", AllowPause=True, EarlyResponse=True, ArmOnEarlyData=False), {"Bounded"})]:
         res = run_tlc("ClientTimeouts", write_cfg("mut", NestedUncancel=False, RearmChecksEof=True, **kw),
                       workers=8, timeout=300, deadlock=False)
         print(f"mutant model {what}: violated={res.violated}")
@@ -1365,11 +1371,16 @@ def selftest(ctx: Ctx) -> int:
     bad5 = copy.deepcopy(good)               # an event is dropped: the timeout comes before any delay elapsed
     del bad5["events"][k - 3:k]
     bad5["events"][k - 3]["obs"]["tend"]["v"] = 600
-    vs, _ = validate_batch("ClientTimeoutsTrace", "ClientTimeoutsTrace.cfg", [good, bad1, bad2, bad3, bad4, bad5])
+    bad6 = copy.deepcopy(good)               # the deadline was reached but the call goes on elsewhere: the
+    for e in bad6["events"][k:]:             # reference vanishes (as after a silent retry), the call stays pending
+        e["obs"]["st"]["v"] = "pending"
+        e["obs"]["refs"] = {kk: -1 for kk in e["obs"]["refs"]}
+    vs, _ = validate_batch("ClientTimeoutsTrace", "ClientTimeoutsTrace.cfg", [good, bad1, bad2, bad3, bad4, bad5, bad6])
     got = [(v.ok, v.clause) for v in vs]
     print(got)
     ok = ok and vs[0].ok and [v.clause for v in vs[1:]] == ["Bounded", "NoResidue", "CancelPropagates",
-                                                            "BystanderUnharmed", "EarlyTimeout"]
+                                                            "BystanderUnharmed", "EarlyTimeout", "Bounded"]
+    ok = ok and vs[6].info == "total-expired"
     print("selftest", "passed" if ok else "FAILED")
     loop.uninstall()
     return 0 if ok else 2
